@@ -37,6 +37,14 @@ CLAIMS = {
    text="Structural clauses behind 'every client command terminates': the reader goroutine's deferred teardown (close(decCh); recover + closeWithError with a provably non-nil error) is registered before the read loop; closeWithError closes the connection, takes the whole pending list and completes each command on every path; removal-by-tag is paired with exactly one completion incl. the deferred error completion; every streaming command's channel is closed by completeCommand and done is sent-then-closed unconditionally; a failed flush closes the client; completion cancels continuation requests and Wait callers honour the error; commands are initialised before publication. 'other': necessary conditions for termination decided on all paths; liveness under each fault offset and the caller's side of the streaming contract are not decided.",
    technique="must-dataflow over go/ssa (deferred teardown, exit coverage, completion counting), type-directed exhaustiveness of channel closing",
    design="§4 C10"),
+ "C11": dict(
+   text="Structural clauses of client robustness: every input-driven recursion cycle of the client's call graph is depth-bounded (Decoder.List's checked guard or a capped strictly increasing counter proven around every cycle); numbers read from the wire reach result sets only after a non-zero test; every parsed number set is refused when dynamic; the reader goroutine recovers and tears down; enumeration loops over unsigned ranges cannot wrap at 2^32-1. 'other': necessary conditions over all cycles/sites; absence of every other panic in accessors and super-linear cost are not decided.",
+   technique="call-graph SCC analysis with ranking-function recognition, wire-value taint with dominating-test rules over go/ssa, loop-shape (integer wrap) rule",
+   design="§4 C11"),
+ "C12": dict(
+   text="Structural clauses of routing and mirrored state: mirror agreement of the mailbox summary across SelectedMailbox / SelectData / UnilateralDataMailbox (same value → same-named fields, incl. view-to-view copies); every write of the client's connection state classified as an RFC 9051 transition (success edge of the right command types via type-switch reachability, greeting per status type, [CLOSED], teardown); response→command routing table extracted from the dispatch switches, generic instantiations and type assertions and compared with the RFC table (23 routes); removal-from-pending paired with exactly one completion; capability invalidation only on success. 'other': necessary conditions; full transcript-vs-reference equality is not decided.",
+   technique="value-identity (mirror) dataflow, typed-AST table extraction, must-facts and type-switch reachability over go/ssa",
+   design="§4 C12"),
  "C13": dict(
    text="Static lockset over every access (reads, writes, map updates) to the mutex-guarded fields of Client from every goroutine root (all exported entry points, the reader goroutine, every go statement), with interprocedural entry sets and lock-transfer summaries; publication rule (no unlocked store through a command after it enters the pending list); command-encoder (encoder lock) pairing incl. ownership transfer to AppendCommand/idleCommand; removal-from-pending paired with exactly one completion on every path; buffered done channel; tag counter incremented only under the mutex. 'other': data-race freedom is decided for the mutex-guarded state by a sound-by-construction must-lockset; fields synchronised by channel hand-off (decErr, greetingErr, bw) and liveness are not decided.",
    technique="interprocedural must-lockset analysis over go/ssa with access paths and lock-effect summaries; publication and pairing dataflow rules",
